@@ -19,7 +19,9 @@
 (* TLC in MC_C17; Trace_C17 re-uses A and B on executions recorded from the real code.   *)
 EXTENDS GlomData
 
-CONSTANTS PullMutant,        \* "none" | "reverse" | "takewhile_drain"              (mechanism mutants, B)
+CONSTANTS DefMutant,         \* "none" | "first_or_default"                        (mutant of the definition, A)
+          PullMutant,        \* "none" | "reverse" | "takewhile_drain" | "tkey_called" | "check_passes" |
+                             \* "sepfn_ignored"                                    (mechanism mutants, B)
           BuildMutant        \* "none" | "inplace" | "sharekw" | "dropsentinel"    (mechanism mutants, C;
                              \*   "dropsentinel" = _add_op as it was before commit 54a8dd1)
 
@@ -43,18 +45,52 @@ Hashable(v) == CASE v.k = "list"  -> FALSE
                  [] v.k = "tuple" -> \A j \in 1..Len(v.items) : Hashable(v.items[j])
                  [] OTHER         -> TRUE
 
-\* the fixed library of callables (the harness holds the same total Python functions)
-ApplyFn(f, v) ==
-  CASE f = "T"        -> v
-    [] f = "inc"      -> IF v.k = "int" THEN VInt(v.i + 1) ELSE v
-    [] f = "skip_odd" -> IF v.k = "int" /\ v.i % 2 = 1 THEN SKIP ELSE v
-    [] f = "stop_at2" -> IF v = VInt(2) THEN STOP ELSE v
-    [] f = "dup"      -> VList(<<v, v>>)
-    [] f = "mod2"     -> IF v.k = "int" THEN VInt(v.i % 2) ELSE v
-PredFn(p, v) ==
-  CASE p = "T"   -> Truthy(v)
-    [] p = "lt2" -> v.k = "int" /\ v.i < 2
-    [] p = "odd" -> v.k = "int" /\ v.i % 2 = 1
+\* the fixed library of functions.  A stage key / subspec is a *glom spec*: the same function may be
+\* spelled as a Python callable (plain name), a T expression (_T: T[0], T.count(0)), a path string
+\* (_str: '0'), a tuple chain (_tup: (T, fn)), Spec(..) (_spec) or, for filter, a Check (_check:
+\* Check(validate=fn, default=SKIP)).  The law does not depend on the spelling.
+BaseFn(f) ==
+  CASE f \in {"item0_T", "item0_str", "item0_spec"} -> "item0"
+    [] f = "cnt0_T" -> "cnt0"
+    [] f \in {"inc_tup", "inc_spec"} -> "inc"
+    [] f = "mod2_tup" -> "mod2"
+    [] f \in {"lt2_tup", "lt2_spec", "lt2_check"} -> "lt2"
+    [] f = "odd_spec" -> "odd"
+    [] OTHER -> f
+Spelling(f) ==
+  CASE f \in {"item0_T", "cnt0_T"} -> "T"
+    [] f = "item0_str" -> "str"
+    [] f \in {"inc_tup", "mod2_tup", "lt2_tup"} -> "tup"
+    [] f \in {"item0_spec", "inc_spec", "lt2_spec", "odd_spec"} -> "spec"
+    [] f = "lt2_check" -> "check"
+    [] OTHER -> "plain"
+\* value functions (total on the item universe except item0 / cnt0, see FnRaises)
+ApplyBase(g, v) ==
+  CASE g = "T"        -> v
+    [] g = "inc"      -> IF v.k = "int" THEN VInt(v.i + 1) ELSE v
+    [] g = "skip_odd" -> IF v.k = "int" /\ v.i % 2 = 1 THEN SKIP ELSE v
+    [] g = "stop_at2" -> IF v = VInt(2) THEN STOP ELSE v
+    [] g = "dup"      -> VList(<<v, v>>)
+    [] g = "mod2"     -> IF v.k = "int" THEN VInt(v.i % 2) ELSE v
+    [] g = "item0"    -> IF IsSeqV(v) /\ v.items # <<>> THEN v.items[1] ELSE VNone      \* x[0]
+    [] g = "cnt0"     -> IF IsSeqV(v) THEN VInt(Cardinality({j \in 1..Len(v.items) : v.items[j] = VInt(0)}))
+                         ELSE VNone                                                      \* x.count(0)
+ApplyFn(f, v) == ApplyBase(BaseFn(f), v)
+\* the function raises on this item (such pipelines are ill-typed: outside the law)
+FnRaises(f, v) ==
+  LET g == BaseFn(f) IN
+  CASE g = "item0" -> ~(IsSeqV(v) /\ v.items # <<>>)
+    [] g = "cnt0"   -> ~IsSeqV(v)
+    [] OTHER -> FALSE
+\* predicates proper; any value function is a predicate too, through the truth value of its result
+PredNames == {"lt2", "odd", "notnone", "even", "isempty"}
+PredBase(g, v) ==
+  CASE g = "lt2"     -> v.k = "int" /\ v.i < 2
+    [] g = "odd"     -> v.k = "int" /\ v.i % 2 = 1
+    [] g = "notnone" -> v # VNone                       \* lambda x: x is not None
+    [] g = "even"    -> v.k = "int" /\ v.i % 2 = 0
+    [] g = "isempty" -> IsSeqV(v) /\ v.items = <<>>     \* an empty list / tuple
+PredFn(p, v) == LET g == BaseFn(p) IN IF g \in PredNames THEN PredBase(g, v) ELSE Truthy(ApplyBase(g, v))
 
 \* ---- stages (uniform record so that TLC sets and JSON rows share one shape) -------------
 \*   base      f = subspec, v = sentinel (STOP when not given), b = 1 iff sentinel= was passed
@@ -62,7 +98,8 @@ PredFn(p, v) ==
 \*   slice     a = start, b = stop (-1 = None), c = step, f = "slice" | "limit" | "slice1" (spelling:
 \*             slice(a, b[, c]) | limit(b) | slice(b))
 \*   chunked   a = size, b = 1 iff fill given, v = fill      windowed  a = size
-\*   split     f = "none" | "scalar" | "set" (kind of sep), v = the separator, b = maxsplit (-1 = None)
+\*   split     f = "none" | "scalar" | "set" | "fn" (kind of sep), v = the separator (for "fn": the name of a
+\*             predicate, as a string value), b = maxsplit (-1 = None)
 \*   flatten
 Stage(kind, f, a, b, c, v) == [kind |-> kind, f |-> f, a |-> a, b |-> b, c |-> c, v |-> v]
 BaseStage(sub, sent, given) == Stage("base", sub, 0, IF given THEN 1 ELSE 0, 0, sent)
@@ -88,7 +125,9 @@ SliceNextSel(st, n) == IF n <= st.a THEN st.a ELSE st.a + (((n - st.a) + st.c - 
 
 Pad(st, rem) == IF st.b = 1 THEN rem \o [j \in 1..(st.a - Len(rem)) |-> st.v] ELSE rem
 
-IsSep(st, s) == IF st.f = "none" THEN s = VNone ELSE s = st.v
+IsSep(st, s) == CASE st.f = "none" -> s = VNone
+                  [] st.f = "fn" -> PredFn(st.v.s, s)         \* a callable separator
+                  [] OTHER -> s = st.v
 RECURSIVE SplitRun(_, _, _, _, _, _)
 SplitRun(st, xs, i, cur, cnt, acc) ==     \* str.split for iterables (boltons split_iter docs)
   IF i > Len(xs) THEN [acc |-> acc, cur |-> cur]
@@ -112,20 +151,22 @@ Concat(xs, i) == IF i > Len(xs) THEN <<>>
                  ELSE (IF IsSeqV(xs[i]) THEN xs[i].items ELSE <<>>) \o Concat(xs, i + 1)
 
 StageFn(st, X) ==
-  LET xs == X.xs n == Len(xs) IN
+  LET xs == X.xs n == Len(xs)
+      raises == \E j \in 1..n : FnRaises(st.f, xs[j])        \* (only meaningful for stages with a key)
+  IN
   CASE st.kind = "base" ->
-         LET r == BaseRun(st, xs, 1, <<>>) IN Stream(r.out, IF r.stopped THEN "end" ELSE X.fin, X.bad)
-    [] st.kind = "map" -> Stream([j \in 1..n |-> ApplyFn(st.f, xs[j])], X.fin, X.bad)
-    [] st.kind = "filter" -> Stream(SelectSeq(xs, LAMBDA v : PredFn(st.f, v)), X.fin, X.bad)
+         LET r == BaseRun(st, xs, 1, <<>>) IN Stream(r.out, IF r.stopped THEN "end" ELSE X.fin, X.bad \/ raises)
+    [] st.kind = "map" -> Stream([j \in 1..n |-> ApplyFn(st.f, xs[j])], X.fin, X.bad \/ raises)
+    [] st.kind = "filter" -> Stream(SelectSeq(xs, LAMBDA v : PredFn(st.f, v)), X.fin, X.bad \/ raises)
     [] st.kind = "slice" ->
          LET idx == SelectSeq([j \in 1..n |-> j], LAMBDA j : SliceSelected(st, j - 1)) IN
          Stream([j \in 1..Len(idx) |-> xs[idx[j]]],
                 IF st.b # -1 /\ SliceNextSel(st, n) >= st.b THEN "end" ELSE X.fin, X.bad)
     [] st.kind = "takewhile" ->
          LET j == FirstFail(st.f, xs, 1) IN
-         IF j <= n THEN Stream(SubSeq(xs, 1, j - 1), "end", X.bad) ELSE Stream(xs, X.fin, X.bad)
+         IF j <= n THEN Stream(SubSeq(xs, 1, j - 1), "end", X.bad \/ raises) ELSE Stream(xs, X.fin, X.bad \/ raises)
     [] st.kind = "dropwhile" ->
-         LET j == FirstFail(st.f, xs, 1) IN Stream(SubSeq(xs, j, n), X.fin, X.bad)
+         LET j == FirstFail(st.f, xs, 1) IN Stream(SubSeq(xs, j, n), X.fin, X.bad \/ raises)
     [] st.kind = "chunked" ->
          LET nf == n \div st.a
              full == [j \in 1..nf |-> VList(SubSeq(xs, (j - 1) * st.a + 1, j * st.a))]
@@ -141,7 +182,7 @@ StageFn(st, X) ==
                 X.fin, X.bad \/ (st.f = "set" /\ \E j \in 1..n : ~Hashable(xs[j])))
     [] st.kind = "unique" ->
          Stream(UniqRun(st.f, xs, 1, <<>>, <<>>), X.fin,
-                X.bad \/ \E j \in 1..n : ~Hashable(ApplyFn(st.f, xs[j])))
+                X.bad \/ raises \/ \E j \in 1..n : ~Hashable(ApplyFn(st.f, xs[j])))
     [] st.kind = "flatten" ->
          Stream(Concat(xs, 1), X.fin, X.bad \/ \E j \in 1..n : ~IsSeqV(xs[j]))
 
@@ -201,6 +242,9 @@ DemandDown(pipe, XS, tabs, i, e, la) ==    \* e events wanted from the stream af
 ConsumerEvents(XM, k) == CapEv(XM, k)      \* k calls of next(), stopping at END
 
 \* ---- the prediction record for one (pipe, source): everything the law says ---------------
+\* the (key, default) pairs of first() that are predicted for every case; [p "T", d None] is first()
+FirstVariants == << [p |-> "T", d |-> VNone], [p |-> "notnone", d |-> VInt(7)], [p |-> "even", d |-> VInt(9)],
+                    [p |-> "isempty", d |-> VInt(7)], [p |-> "item0_T", d |-> VInt(7)] >>
 RECURSIVE FirstTrue(_, _, _)
 FirstTrue(p, xs, i) == IF i > Len(xs) THEN 0 ELSE IF PredFn(p, xs[i]) THEN i ELSE FirstTrue(p, xs, i + 1)
 
@@ -213,17 +257,24 @@ PredictWith(pipe, kmax, XS, tabs) ==
       XM == XS[M + 1]
       dem(e, la) == DemandDown(pipe, XS, tabs, M, e, la)
       ended == XM.fin = "end"
-      j == FirstTrue("T", XM.xs, 1)
+      \* first(key, default) = next(filter(key, pipeline), default): the first item for which key holds
+      \* (the item itself, whatever its own truth value), else the default once the end is determined
+      firstOf(fv) ==
+        LET j == FirstTrue(fv.p, XM.xs, 1)
+            raises == \E i \in 1..Len(XM.xs) : FnRaises(fv.p, XM.xs[i])
+            hit == IF j > 0 /\ DefMutant = "first_or_default" /\ ~Truthy(XM.xs[j]) THEN fv.d
+                   ELSE IF j > 0 THEN XM.xs[j] ELSE fv.d
+        IN IF raises THEN [p |-> fv.p, d |-> fv.d, det |-> FALSE, found |-> FALSE, v |-> fv.d, demLA |-> INF]
+           ELSE IF j > 0 THEN [p |-> fv.p, d |-> fv.d, det |-> TRUE, found |-> TRUE, v |-> hit, demLA |-> dem(j, TRUE)]
+           ELSE IF ended THEN [p |-> fv.p, d |-> fv.d, det |-> TRUE, found |-> FALSE, v |-> fv.d, demLA |-> dem(Ev(XM), TRUE)]
+           ELSE [p |-> fv.p, d |-> fv.d, det |-> FALSE, found |-> FALSE, v |-> fv.d, demLA |-> INF]
   IN [bad   |-> XM.bad,
       n     |-> Len(XM.xs),
       ended |-> ended,
       xs    |-> CutTo(XM.xs, ended, kmax),
       dem   |-> [k \in 1..(kmax + 1) |-> dem(ConsumerEvents(XM, k - 1), FALSE)],
       demLA |-> [k \in 1..(kmax + 1) |-> dem(ConsumerEvents(XM, k - 1), TRUE)],
-      \* first(): first truthy output, else the default once the end is determined
-      first |-> IF j > 0 THEN [det |-> TRUE, found |-> TRUE, v |-> XM.xs[j], demLA |-> dem(j, TRUE)]
-                ELSE IF ended THEN [det |-> TRUE, found |-> FALSE, v |-> VNone, demLA |-> dem(Ev(XM), TRUE)]
-                ELSE [det |-> FALSE, found |-> FALSE, v |-> VNone, demLA |-> INF],
+      first |-> [i \in 1..Len(FirstVariants) |-> firstOf(FirstVariants[i])],
       \* all(): the whole list; terminates iff the pipeline ends
       all   |-> IF ended THEN [det |-> TRUE, demLA |-> dem(Ev(XM), TRUE)] ELSE [det |-> FALSE, demLA |-> INF]]
 Predict(pipe, srcd, kmax, horizon) ==
@@ -263,6 +314,14 @@ M == Len(pipe)
 InitLoc(st) == [buf |-> <<>>, outq |-> <<>>, cnt |-> 0, nxt |-> IF st.kind = "slice" THEN st.a ELSE 0,
                 flag |-> FALSE, seen |-> <<>>, upEnded |-> FALSE, done |-> FALSE]
 
+\* the predicate / separator test as the mechanism evaluates it (mutants: a T-expression key is
+\* *called* instead of glommed and so is always truthy; a Check key lets everything through; a
+\* callable separator never separates)
+MPred(f, v) == IF PullMutant = "tkey_called" /\ Spelling(f) = "T" THEN TRUE
+               ELSE IF PullMutant = "check_passes" /\ Spelling(f) = "check" THEN TRUE
+               ELSE PredFn(f, v)
+MIsSep(st, v) == IF PullMutant = "sepfn_ignored" /\ st.f = "fn" THEN FALSE ELSE IsSep(st, v)
+
 \* stage st with local state l receives item v from upstream
 Recv(st, l, v) ==
   CASE st.kind = "base" ->                       \* Iter._iterate
@@ -271,7 +330,7 @@ Recv(st, l, v) ==
          ELSE IF y = st.v \/ y = STOP THEN [l EXCEPT !.done = TRUE]
          ELSE [l EXCEPT !.outq = <<y>>]
     [] st.kind = "map" -> [l EXCEPT !.outq = <<ApplyFn(st.f, v)>>]
-    [] st.kind = "filter" -> IF PredFn(st.f, v) THEN [l EXCEPT !.outq = <<v>>] ELSE l
+    [] st.kind = "filter" -> IF MPred(st.f, v) THEN [l EXCEPT !.outq = <<v>>] ELSE l
     [] st.kind = "slice" ->                      \* islice_next: skip loop, then the item
          IF l.cnt < l.nxt THEN [l EXCEPT !.cnt = @ + 1]
          ELSE LET nn == l.nxt + st.c IN
@@ -279,11 +338,11 @@ Recv(st, l, v) ==
                         !.nxt = IF st.b # -1 /\ nn > st.b THEN st.b ELSE nn]
     [] st.kind = "takewhile" ->
          IF l.flag THEN l                        \* only reachable under mutant takewhile_drain
-         ELSE IF PredFn(st.f, v) THEN [l EXCEPT !.outq = <<v>>]
+         ELSE IF MPred(st.f, v) THEN [l EXCEPT !.outq = <<v>>]
          ELSE IF PullMutant = "takewhile_drain" THEN [l EXCEPT !.flag = TRUE]
          ELSE [l EXCEPT !.done = TRUE]
     [] st.kind = "dropwhile" ->
-         IF ~l.flag /\ PredFn(st.f, v) THEN l ELSE [l EXCEPT !.flag = TRUE, !.outq = <<v>>]
+         IF ~l.flag /\ MPred(st.f, v) THEN l ELSE [l EXCEPT !.flag = TRUE, !.outq = <<v>>]
     [] st.kind = "chunked" ->                    \* list(islice(src_iter, size))
          LET b == Append(l.buf, v) IN
          IF Len(b) = st.a THEN [l EXCEPT !.buf = <<>>, !.outq = <<VList(b)>>] ELSE [l EXCEPT !.buf = b]
@@ -291,7 +350,7 @@ Recv(st, l, v) ==
          LET w == Append(l.buf, v) IN [l EXCEPT !.outq = <<VTuple(w)>>, !.buf = Tail(w)]
     [] st.kind = "split" ->
          LET active == st.b = -1 \/ l.cnt < st.b IN
-         IF active /\ IsSep(st, v)
+         IF active /\ MIsSep(st, v)
          THEN IF st.f = "none" /\ l.buf = <<>> THEN l
               ELSE [l EXCEPT !.cnt = @ + 1, !.outq = <<VList(l.buf)>>, !.buf = <<>>]
          ELSE [l EXCEPT !.buf = Append(@, v)]
